@@ -24,6 +24,9 @@ MULTILINE_TOKENS = [
     "/* page\x0cbreak \x0b \x85 \x1c */ a = 1 ; b ;",
     "x = 'a\x0cb\x0bc' ; // d\x0ce\n y = 1 ; z ;",
     "a ;\x0c b ;\x0b c ;\x85 ; d",
+    # a line comment directly followed by CR LF / CR (one line break each)
+    "a ; // c\r\n b ; // d\r\n c ;",
+    "// c\r\nb ; // d\rc ;",
 ]
 
 
